@@ -89,7 +89,8 @@ def run(ctx):
     # distinct row, whatever follows
     for seq in [("select_dups", "distinct", "window"), ("select_dups", "distinct", "window", "filter"), ("select_dups", "distinct", "derive", "window"),
                 ("select_dups", "distinct", "sort", "window"), ("select_dups", "distinct", "window", "sort"), ("select_dups", "distinct", "window", "take"),
-                ("select_dups", "distinct", "filter", "window")]:
+                ("select_dups", "distinct", "filter", "window"), ("select_dups", "distinct", "filter_window"), ("distinct", "filter_window"),
+                ("select_dups", "distinct", "filter_window", "sort"), ("select_dups", "filter_window"), ("select_dups", "distinct", "filter_window", "window")]:
         for c in relgen.systematic_cases(len(seq), SAFE, seed=46, kinds=list(dict.fromkeys(seq)), variants=6 if quick else 20):
             if c.seq == seq:
                 c.db = relgen.with_duplicates(c.db, random.Random(len(syscases)))
